@@ -40,11 +40,11 @@ Definition mismatch (c : case) : bool :=
   | Pass loff confs now tree rtab ftab _ names removed =>
       let rm := rematch_of rtab in
       let rs := resolve_of ftab in
-      let pn := path_names loff rm confs tree in
-      negb (names_eqb (map fst (deleted loff rm rs confs now tree)) removed
+      let pn := path_names (fixed_lz loff) rm confs tree in
+      negb (names_eqb (map fst (deleted (fixed_lz loff) rm rs confs now tree)) removed
             && subset pn names && subset names pn
             (* the sequential pass leaves the complement *)
-            && names_eqb (map fst (run_seq loff rm rs confs now tree))
+            && names_eqb (map fst (run_seq (fixed_lz loff) rm rs confs now tree))
                          (map fst (filter (fun e => negb (mem (fst e) removed)) tree)))
   end.
 
